@@ -25,6 +25,7 @@ class Program(object):
         self.statements = []
         self.address = 0x0
         self.origin = NoneValue()
+        self.exec_address = NoneValue()
         self.name = None
 
     def process(self, source_file):
@@ -136,6 +137,18 @@ class Program(object):
                 self.origin = statement.code_pkg.address
             if statement.instruction.is_name:
                 self.name = statement.operand.operand_string
+            if statement.instruction.mnemonic == "END":
+                # the operand of END is the address where execution starts
+                value = statement.operand.value
+                if value.is_address():
+                    self.exec_address = self.statements[value.int].code_pkg.address
+                elif value.is_numeric():
+                    self.exec_address = value
+                elif value.is_address_expression():
+                    try:
+                        self.exec_address = value.calculate_address_offset(self.statements)
+                    except (ValueError, ValueTypeError) as error:
+                        raise TranslationError(str(error), statement)
 
     def get_binary_array(self):
         """
